@@ -780,6 +780,12 @@ func checkC15(r *Run) []Violation {
 			}
 			// no delivery may contain rows of the mismatching table after the fault
 			bad := att.MapperCalls[len(att.MapperCalls)-1]
+			badShown := bad.Name
+			for _, t := range append(append([]*TableDef{}, r.sc.Hist.retired...), r.sc.Hist.Tables...) {
+				if t.DB == bad.DB && t.Name == bad.Name {
+					badShown = t.shownName()
+				}
+			}
 			seenFault := false
 			for _, c := range att.Calls {
 				if c.Seq > bad.Seq {
@@ -787,7 +793,7 @@ func checkC15(r *Run) []Violation {
 				}
 				if seenFault && c.Snap != nil {
 					for _, e := range c.Snap.Events {
-						if e.DB == bad.DB && e.Table == bad.Name {
+						if e.DB == bad.DB && (e.Table == bad.Name || e.Table == badShown) {
 							vs = append(vs, Violation{"C15", "mismatch-accepted", fmt.Sprintf("rows of %s.%s were delivered although the mapper's column count disagrees with the table map", bad.DB, bad.Name), i})
 						}
 					}
